@@ -255,6 +255,24 @@ fn run_case(c: &Case) -> Option<(String, String)> {
         if g != w {
             return Some(("stat:unique_error_codes:vs-listed-messages".into(), format!("unique_error_codes = {:?}, the listed messages carry the codes {:?}", got, want)));
         }
+        // a message that quotes the per-bit trigger counts quotes the counters of this very file
+        for m in es["custom_checks_stats_errors"].as_array().cloned().unwrap_or_default() {
+            let m = m.as_str().unwrap_or("").to_string();
+            if let Some(i) = m.find("Trigger statistics:") {
+                for line in m[i..].lines().skip(1) {
+                    let mut it = line.split(':');
+                    let (Some(name), Some(val)) = (it.next(), it.next()) else { continue };
+                    let (name, val) = (name.trim().to_lowercase(), val.trim());
+                    if name.is_empty() || val.is_empty() {
+                        continue;
+                    }
+                    let counter = &st["rdh_stats"]["trigger_stats"][name.as_str()];
+                    if counter.as_u64().map(|c| c.to_string()) != Some(val.to_string()) {
+                        return Some(("stat:trigger-counts-quoted-in-message".into(), format!("the [E9002] message quotes {name} = {val}, rdh_stats.trigger_stats.{name} = {counter}")));
+                    }
+                }
+            }
+        }
         if es["total_errors"].as_u64().is_some() && es["total_errors"].as_u64() != Some(listed) {
             return Some(("stat:total_errors:vs-listed-messages".into(), format!("total_errors = {}, {} messages are listed", es["total_errors"], listed)));
         }
@@ -607,6 +625,21 @@ pub fn run(tier: Tier) -> i32 {
         for m in [vec!["view", "rdh"], vec!["view", "its-readout-frames"], vec!["view", "its-readout-frames-data"]] {
             cases.push(Case { label: format!("CUSTOM:cdps = {}", n + 1), bytes: clean.bytes(), mode: m.clone(), filter: None, errors: Some((1, vec!["9001"])), toml: false, stdin: false });
             cases.push(Case { label: format!("CUSTOM:cdps = {}\ntriggers_pht = 55", n + 2), bytes: clean.bytes(), mode: m, filter: None, errors: Some((2, vec!["9001", "9002"])), toml: true, stdin: true });
+        }
+    }
+    // the same failure on headers whose trigger words set every other counted bit (neighbouring counters differ): the
+    // per-bit counts quoted inside the [E9002] message are the counters of the statistics
+    {
+        let even: u32 = TRIGGER_FIELDS.iter().enumerate().filter(|(i, _)| i % 2 == 0).fold(0, |a, (_, (_, b))| a | (1u32 << b));
+        let all: u32 = TRIGGER_FIELDS.iter().fold(0, |a, (_, b)| a | (1u32 << b));
+        let mut pk = gen::recognisable_pattern_stream(&[0, 1, 0, 1, 0], 7700);
+        for (i, p) in pk.iter_mut().enumerate() {
+            p.rdh.trigger_type = [even, all & !even, even, even, 0x10][i];
+            p.rdh.stop_bit &= 1;
+        }
+        let bytes = stream::to_bytes(&pk);
+        for m in [vec!["check", "sanity"], vec!["view", "rdh"]] {
+            cases.push(Case { label: "CUSTOM:triggers_pht = 55".into(), bytes: bytes.clone(), mode: m, filter: None, errors: None, toml: false, stdin: false });
         }
     }
     let res = par_map(&cases, |_, c| run_case(c));
